@@ -39,6 +39,8 @@ var wanted = []string{
 	"DigitsFromStr", "AlgorithmFromStr",
 	"parseTimeGranularity", "parseCryptoFunction", "parseDataInputTokens", "parseRawSuite",
 	"NewRawSuite", "NewSuite", "IsKnownSuite", "SuiteConfigFromRaws",
+	"To8ByteBigEndian", "ParseDecimalToBigEndian8", "ParseDecimal64BigEndian", "LeftPadHex", "MustHexPadLeft",
+	"ParseHexTimestamp", "ParseDecimalChallengeRFC6287", "HexInputToOCRA", "RandomSecret",
 }
 
 type tr struct {
@@ -153,7 +155,7 @@ func main() {
 	t.harvest()
 	var b strings.Builder
 	b.WriteString("(* GENERATED from the Go sources of " + repo + " by /verif/tools/gen_model — do not edit. *)\n")
-	b.WriteString("From Coq Require Import String.\nFrom OtpV Require Import Prelude Sha GoSem Errors Decoder Otp Ocra Utils Suite.\nOpen Scope N_scope.\n\n")
+	b.WriteString("From Coq Require Import String.\nFrom OtpV Require Import Prelude Sha GoSem Rfc4648 Errors Decoder Otp Ocra Utils Suite.\nOpen Scope N_scope.\n\n")
 	b.WriteString(t.globals())
 	for _, q := range wanted {
 		t.translate(q)
